@@ -22,8 +22,10 @@ fi
 mkdir -p $D/verif
 rsync -a --delete --exclude work --exclude .git --exclude 'lean/.lake' /verif/ $D/verif/
 mkdir -p $D/verif/work
-# lean build output: copy once (oleans are position independent enough; lake re-checks hashes)
-if [ ! -d $D/verif/lean/.lake ]; then cp -r /verif/lean/.lake $D/verif/lean/.lake; fi
+# lean build output: synchronised every time (oleans are position independent enough; lake re-checks hashes), so that
+# an environment never has to recompile the proof libraries
+mkdir -p $D/verif/lean/.lake
+rsync -a --delete /verif/lean/.lake/ $D/verif/lean/.lake/
 # cargo target: seed from /verif's to avoid recompiling the registry crates
 if [ ! -d $D/verif/work/target ]; then cp -r /verif/work/target $D/verif/work/target 2>/dev/null || true; fi
 sed -i "s#/repo/#$D/repo/#g" $D/verif/harness/Cargo.toml
